@@ -6,7 +6,7 @@ use crate::{
     attr::{Attr, EnumAttr, FieldAttr, StructAttr, Tagged, VariantAttr},
     deps::Dependencies,
     types::{self, type_as, type_override},
-    utils::make_string_literal,
+    utils::{escape_string_content, escaped_string_content, make_string_literal},
     DerivedTS,
 };
 
@@ -101,6 +101,17 @@ fn format_variant(
         &variant.fields,
     )?;
 
+    // From here on the variant's name, the tag and the content key are only written between
+    // double quotes.
+    let ts_name = escaped_string_content(&ts_name);
+    let (tag, content) = match enum_attr.tagged()? {
+        Tagged::Internally { tag } => (escape_string_content(tag), String::new()),
+        Tagged::Adjacently { tag, content } => {
+            (escape_string_content(tag), escape_string_content(content))
+        }
+        _ => (String::new(), String::new()),
+    };
+
     let variant_dependencies = variant_type.dependencies;
     let inline_type = variant_type.inline;
 
@@ -149,7 +160,7 @@ fn format_variant(
             }
             _ => quote!(format!("{{ \"{}\": {} }}", #ts_name, #parsed_ty)),
         },
-        (false, Tagged::Adjacently { tag, content }) => match &variant.fields {
+        (false, Tagged::Adjacently { .. }) => match &variant.fields {
             Fields::Unnamed(unnamed) if unnamed.unnamed.len() == 1 => {
                 let field = &unnamed.unnamed[0];
                 let field_attr = FieldAttr::from_attrs(&unnamed.unnamed[0].attrs)?;
@@ -171,7 +182,7 @@ fn format_variant(
                 format!("{{ \"{}\": \"{}\", \"{}\": {} }}", #tag, #ts_name, #content, #parsed_ty)
             ),
         },
-        (false, Tagged::Internally { tag }) => match variant_type.inline_flattened {
+        (false, Tagged::Internally { .. }) => match variant_type.inline_flattened {
             // The tag is already part of the inlined struct - unless the variant's type is
             // replaced by `as` or `type`, in which case it has to be added here.
             Some(_) if variant_attr.type_as.is_none() && variant_attr.type_override.is_none() => {
@@ -202,7 +213,11 @@ fn format_variant(
 
 /// `{ "tag": "Variant" } & <content>` for the variant of an internally tagged enum. `&` binds
 /// tighter than `|`: a content that is a union (an inlined enum) has to be parenthesised.
-fn intersect_with_tag(tag: TokenStream, ts_name: &Expr, content: &TokenStream) -> TokenStream {
+fn intersect_with_tag(
+    tag: TokenStream,
+    ts_name: &TokenStream,
+    content: &TokenStream,
+) -> TokenStream {
     quote!({
         let content: String = #content;
         if content.contains(" | ") {
